@@ -122,6 +122,17 @@ C08_Values == {C08_L("5"), SD("scalar", Atom("s", "v"), <<>>), SD("scalar", Atom
                SD("list", NoVal, <<<<IKey(0), C08_L("5")>>, <<IKey(1), C08_L("6")>>, <<IKey(2), C08_L("7")>>>>)}
 C08_CmdDocs == {OverrideDoc(p, v) : p \in C08_Paths, v \in C08_Values}
 
+\* the overridden path holds a !call / !bind node (its arguments are children like any other; a plain mapping / list that
+\* replaces them wholesale - !del, or a list - is moved INTO the function node object: that must not launder its !notnew)
+C08_Fn(k, args) == [SD(k, NoVal, args) EXCEPT !.fn = "vmod.rec", !.form = "tag"]
+C08_FnBase == {SD("dict", NoVal, <<<<C08_KA, f>>>>) :
+                  f \in {C08_Fn("call", <<<<C08_KA, C08_L("1")>>>>), C08_Fn("bind", <<<<C08_KA, C08_L("1")>>, <<C08_KB, C08_L("1")>>>>),
+                         C08_Fn("call", <<>>), C08_Fn("bind", <<<<IKey(0), C08_L("1")>>, <<IKey(1), C08_L("1")>>>>),
+                         SD("dict", NoVal, <<<<C08_KA, C08_Fn("call", <<<<C08_KB, C08_L("1")>>>>)>>>>)}}
+C08_FnOv == C08_OvDelDocs \cup {d \in C08_OvDocs : d.form = "tag"} \cup {d \in C08_CmdDocs : OverrideValue(d).v[1] # "s"}     \* (a string merged onto a function node renames its target: C13's table)
+C08_DocsF  == SetToSeq(C08_FnBase) \o SetToSeq(C08_FnOv)
+C08_RangeF == << <<1, Cardinality(C08_FnBase)>>, <<Cardinality(C08_FnBase) + 1, Cardinality(C08_FnBase) + Cardinality(C08_FnOv)>> >>
+
 C08_Docs  == SetToSeq(C08_BaseDocs) \o SetToSeq(C08_OvDocs \cup C08_CmdDocs)
 C08_Range == << <<1, Cardinality(C08_BaseDocs)>>,
                 <<Cardinality(C08_BaseDocs) + 1, Cardinality(C08_BaseDocs) + Cardinality(C08_OvDocs \cup C08_CmdDocs)>> >>
